@@ -76,7 +76,9 @@ GHIST_SCENARIOS = [
 def build_ghist(scn_idx, gen=None):
     import ak.ghist as G
     import logging
-    logging.getLogger("ak.ghist").setLevel(logging.ERROR)
+    from vlib import core as _core
+    if not _core.debug_logs_active():
+        logging.getLogger("ak.ghist").setLevel(logging.ERROR)
     if gen is not None:
         # a generated single-repository history (same case format as the C06 check)
         from checks import c06_history_report as c6
